@@ -144,6 +144,7 @@ theorem proj_onShared (sys : Sys K T R) (rq : Req K T R) (b : Sub K V R) (l : Sh
   | tAdd t => rfl
   | w1Upd k v => rfl
   | w1Add k v => rfl
+  | w1Quiet k v => rfl
   | w1Del ks =>
     simp only [Sub.onShared, proj]
     simp [projWalker_filter]
@@ -223,6 +224,7 @@ theorem proj_local {sys : Sys K T R} {rq : Req K T R} {sh : Shared K V T R} {b b
     cases why
     case unauth hpc ha => simp [subFire, hFire, proj, hpc, allowedReq, ha]
     case invalid hpc ha => simp [subFire, hFire, proj, hpc, allowedReq, ha]
+    case badMode hpc hm => simp [subFire, hFire, proj, hpc, allowedReq, hm]
     case notFound t _ hs _ => rw [hsingle] at hs; cases hs
     case denied t _ hs _ => rw [hsingle] at hs; cases hs
     case eof hst hm hw => simp [subFire, proj, allowedReq, hst, hm, hw, projWalker]
@@ -235,12 +237,13 @@ theorem proj_local {sys : Sys K T R} {rq : Req K T R} {sh : Shared K V T R} {b b
   case h1 hpc ha => exact Or.inr (by simp [subFire, hFire, proj, hpc, allowedReq, ha])
   case h2 hpc _ => exact Or.inr (by simp [subFire, hFire, proj, hpc, allowedReq, hsingle])
   case h3 hpc _ => exact Or.inr (by simp [subFire, hFire, proj, hpc, allowedReq, hsingle])
-  case h4poll hpc hm =>
+  case h4poll hpc hm hno =>
     refine Or.inr ?_
     cases hmode : rq.mode with
     | stream => exact absurd hmode hm
     | once => simp [subFire, hFire, proj, hpc, allowedReq, hmode]
     | poll => simp [subFire, hFire, proj, hpc, allowedReq, hmode]
+    | other => exact absurd hmode hno
   case h4stream hpc hm huo =>
     exact Or.inr (by simp [subFire, hFire, proj, hpc, allowedReq, hm, huo])
   case h4sync hpc hm huo =>
